@@ -183,6 +183,37 @@ func runC04(c *runCtx) {
 		}
 	}
 	pastLimit(c)
+	// every kind of content (a positive of nearly every format): the caller's slice and its spare capacity are never
+	// written, and the same slice examined again gives the same answer
+	for _, sd := range allSeeds(c.rng, "/repo") {
+		if len(sd.data) == 0 {
+			continue
+		}
+		for _, lim := range []uint32{3072, 0} {
+			buf := make([]byte, len(sd.data), len(sd.data)+32)
+			copy(buf, sd.data)
+			for k := len(sd.data); k < cap(buf); k++ {
+				buf[:cap(buf)][k] = 0xA5
+			}
+			before := sha256.Sum256(buf[:cap(buf)])
+			m1, p1 := detectAt(buf, lim)
+			after := sha256.Sum256(buf[:cap(buf)])
+			m2, p2 := detectAt(buf, lim)
+			c.stats.note("seed-twice", append([]byte{byte(lim)}, sd.data...), len(sd.data), true)
+			if before != after {
+				c.propfail("C04", fmt.Sprintf("the caller's buffer (or its spare capacity) was modified by a detection: kind=%s limit=%d input=%s", sd.kind, lim, hx(sd.data[:min(len(sd.data), 80)])))
+			}
+			if p1 == nil && p2 == nil && m1 != nil && m2 != nil && chainFull(m1) != chainFull(m2) {
+				c.propfail("C04", fmt.Sprintf("repeating a detection on the same slice changes the answer: %q then %q; kind=%s limit=%d input=%s", chainFull(m1), chainFull(m2), sd.kind, lim, hx(sd.data[:min(len(sd.data), 80)])))
+			}
+		}
+	}
+	// reader detections under changing limits (recycled read buffers): each must answer like Detect on its own header
+	for i, sd := range allSeeds(c.rng, "/repo") {
+		if i%5 == 0 && len(sd.data) > 0 {
+			c.agree(sd.kind, sd.data, []uint32{16, 64, 512, 3072, 7}[i/5%5], i%40 == 0)
+		}
+	}
 	c.emit("c04done", strconv.Itoa(int(c.stats.Evaluations)))
 	_ = bufio.ScanLines
 }
